@@ -34,6 +34,13 @@ inductive SY (κ : Type) where
   | panic
   deriving Repr, DecidableEq, Inhabited
 
+/-- the context an included file starts with: the includer's, with the origin replaced if the
+    directive names one -/
+def childContext (ctx : Ctx) (origin : Option (List UInt8)) : Ctx :=
+  match origin with
+  | some o => { ctx with origin := some o }
+  | none => ctx
+
 /-- Read the rest of a file.  `p` is the in-memory parser over the file's remaining entries
     (its `ctx` is the current context).  Result: the reports, and the final context (`none`
     when reading stopped with an error). -/
@@ -54,9 +61,7 @@ def readFile {κ : Type} (resolve : κ → List UInt8 → Option (κ × List UIn
       | none => ([.err file .FailedToOpenInclude line], none)
       | some (child, content) =>
         -- the included file starts from the includer's context, origin replaced if given
-        let childCtx : Ctx := match origin with
-          | some o => { p'.ctx with origin := some o }
-          | none => p'.ctx
+        let childCtx : Ctx := childContext p'.ctx origin
         match readFile resolve maxDepth child (depth + 1) (Parser.withContext content childCtx) with
         | (ys, none) => (ys, none)
         | (ys, some c) =>
